@@ -13,6 +13,7 @@ CONSTANTS
   ValidateRoots <- MC_ValidateRoots
   RestoreRng <- MC_RestoreRng
   RewireStrict <- MC_RewireStrict
+  NearFirst <- MC_NearFirst
 SPECIFICATION Spec
 VIEW view
 CHECK_DEADLOCK FALSE
